@@ -39,7 +39,7 @@ func randMeta(r *engine.RNG) txfile.VerifMeta {
 	ps := uint32(1024 << uint(r.Intn(4)))
 	return txfile.VerifMeta{
 		Magic: 0xBEA77AEB, Version: 1, PageSize: ps, Flags: uint32(r.Intn(2)),
-		MaxSize: pick(1 << 40), Txid: pick(^uint64(0)), MetaTotal: pick(1 << 30),
+		MaxSize: pick(1 << 40), Txid: pick(^uint64(0)) + uint64(r.Intn(2)), MetaTotal: pick(1 << 30), // txid up to 2^64-1
 		Root: pick(1 << 40), Freelist: pick(1 << 40), Wal: pick(1 << 40),
 		DataEnd: pick(1 << 40), MetaEnd: pick(1 << 40),
 	}
@@ -114,10 +114,19 @@ func runCodecMeta(rep *Report) {
 				rep.Markers["txid-wraparound"]++
 			}
 			if c := chooseOnDisk(b, b2, ps); c != "1" {
-				fail("newest", "successor header in slot 1 not chosen: %s", c)
+				fail("newest", "header with txid %d in slot 0 and its successor (txid %d) in slot 1: chosen %s", m.Txid, m2.Txid, c)
 			}
 			if c := chooseOnDisk(b2, b, ps); c != "0" {
-				fail("newest", "successor header in slot 0 not chosen: %s", c)
+				fail("newest", "header with txid %d in slot 1 and its successor (txid %d) in slot 0: chosen %s", m.Txid, m2.Txid, c)
+			}
+		}
+		if m2.Txid == m.Txid-1 {
+			rep.Markers["predecessor"]++
+			if m.Txid == 0 {
+				rep.Markers["txid-wraparound"]++
+			}
+			if c := chooseOnDisk(b, b2, ps); c != "0" {
+				fail("newest", "header with txid %d in slot 0 and its predecessor (txid %d) in slot 1: chosen %s", m.Txid, m2.Txid, c)
 			}
 		}
 		// equal transaction ids: must not panic
